@@ -61,7 +61,8 @@ inductive Act where
   | observe
   | setKey (k : Key) (v : Val)     -- kwargs[k] = v   (rewrites or adds a key)
   | delKey (k : Key)               -- kwargs.pop(k, None)
-  | post (p : Nat)                 -- post_funcs.append(callback p)
+  | post (p : Nat)                 -- post_funcs.append(callback p); callbacks numbered ≥ 1000 create a row of class B when run
+  | spawn                          -- the listener itself creates a row of another class B ("audit row" pattern)
   deriving DecidableEq, Repr
 
 structure Listener where
@@ -345,6 +346,110 @@ def updateShape (c : Cfg) (id : Nat) (wrote : Bool) : List Tag :=
 
 def destroyShape (c : Cfg) (id : Nat) : List Tag :=
   evTags c .destroy ++ Tag.del id :: (postTags c .destroy ++ (evTags c .destroyed ++ postTags c .destroyed))
+
+/-! ## Rows created from inside a listener or a post-callback (second class `B`)
+
+A listener with action `spawn`, or a callback numbered ≥ 1000 when it runs, calls `B()`.  What that
+constructor does depends on where it is called from:
+
+* while some constructor is active on the thread (inside a RowCreateSignal listener, inside a
+  callback run by `__init__`, inside the flush of the postponed list: RowCreatedSignal listeners and
+  their callbacks) the thread-local `postponed_calls` exists, so `B()` is a *nested* constructor: its
+  RowCreatedSignal thunk is appended to the list that the outermost constructor is flushing / will
+  flush, and the flush loop must reach it;
+* from an update / destroy listener or callback there is no list: `B()` is outermost and flushes
+  its own thunk before returning.
+
+`B`'s own listeners (`LB`) do not spawn.  The log of an operation is a list of `XEntry`: `.a e` an
+entry of the class operated on (exactly the entries of `step`), `.b e` an entry of class `B`. -/
+
+inductive XEntry where
+  | a (e : Entry)
+  | b (e : Entry)
+  deriving DecidableEq, Repr
+
+def projA (l : List XEntry) : List Entry := l.filterMap (fun x => match x with | .a e => some e | .b _ => none)
+def projB (l : List XEntry) : List Entry := l.filterMap (fun x => match x with | .b e => some e | .a _ => none)
+
+/-- does this log entry (a listener call / a callback run) create a `B` row? -/
+def spawnTrigger (L : List Listener) : Entry → Bool
+  | .ev _ lis _ _ => match L[lis]? with
+    | some l => decide (l.act = .spawn)
+    | none => false
+  | .post p _ => decide (1000 ≤ p)
+  | _ => false
+
+/-- `B()` up to the return of its `_create` and its RowCreateSignal callbacks -/
+def bConstruct (c : Cfg) (LB : List Listener) (idB : Nat) : List XEntry :=
+  let r := deliver .create none 0 LB [] []
+  (r.2.2 ++ Entry.ins idB (newRow c r.1) :: r.2.1.map (fun p => Entry.post p idB)).map XEntry.b
+
+/-- the postponed thunk of `B` row `idB`: RowCreatedSignal and its callbacks -/
+def bCreated (LB : List Listener) (idB : Nat) : List XEntry :=
+  let r := deliver .created (some idB) 0 LB [] []
+  (r.2.2 ++ r.2.1.map (fun p => Entry.post p idB)).map XEntry.b
+
+/-- entries of the operated class, executed while `postponed_calls` exists: every spawning entry is
+    followed by `B`'s nested constructor; returns the ids whose thunk was appended, in order -/
+def expandNested (c : Cfg) (LB L : List Listener) : List Entry → Nat → List XEntry × List Nat × Nat
+  | [], nB => ([], [], nB)
+  | e :: es, nB =>
+    if spawnTrigger L e then
+      let r := expandNested c LB L es (nB + 1)
+      (XEntry.a e :: (bConstruct c LB nB ++ r.1), nB :: r.2.1, r.2.2)
+    else
+      let r := expandNested c LB L es nB
+      (XEntry.a e :: r.1, r.2.1, r.2.2)
+
+/-- the same with no constructor active: `B()` is outermost and delivers its RowCreatedSignal itself -/
+def expandInline (c : Cfg) (LB L : List Listener) : List Entry → Nat → List XEntry × Nat
+  | [], nB => ([], nB)
+  | e :: es, nB =>
+    if spawnTrigger L e then
+      let r := expandInline c LB L es (nB + 1)
+      (XEntry.a e :: (bConstruct c LB nB ++ (bCreated LB nB ++ r.1)), r.2)
+    else
+      let r := expandInline c LB L es nB
+      (XEntry.a e :: r.1, r.2)
+
+/-- the flush loop reaching the thunks `q` -/
+def flush (LB : List Listener) (q : List Nat) : List XEntry := q.flatMap (bCreated LB)
+
+/-- `Cls(**kw)` with spawning listeners: the postponed list is
+    [thunks of B rows made by RowCreateSignal listeners] ++ [own thunk] ++ [B rows made by the
+    callbacks run in `__init__`]; flushing the own thunk may append more (`x3`), which the loop
+    of the original code still reaches. -/
+def opCreateX (c : Cfg) (LB : List Listener) (s : State) (nB : Nat) (kw : Kw) : (State × List XEntry × Out) × Nat :=
+  let L := c.listeners
+  let r := deliver .create none 0 L kw []
+  let x1 := expandNested c LB L r.2.2 nB
+  let row := newRow c r.1
+  if row.contains .bad then ((s, x1.1 ++ flush LB x1.2.1, .invalid), x1.2.2)
+  else if unknownKey c.ncols r.1 then ((s, x1.1 ++ flush LB x1.2.1, .typeError), x1.2.2)
+  else
+    let id := s.nextId
+    let x2 := expandNested c LB L (r.2.1.map (fun p => Entry.post p id)) x1.2.2
+    let r2 := deliver .created (some id) 0 L [] []
+    let x3 := expandNested c LB L (r2.2.2 ++ r2.2.1.map (fun p => Entry.post p id)) x2.2.2
+    (({ rows := s.rows ++ [(id, row)], nextId := id + 1,
+        objs := s.objs ++ [{ id := id, pending := List.replicate c.ncols none }] },
+      x1.1 ++ XEntry.a (Entry.ins id row) :: (x2.1 ++ (flush LB x1.2.1 ++ (x3.1 ++ (flush LB x2.2.1 ++ flush LB x3.2.1)))),
+      .ok), x3.2.2)
+
+/-- one operation with spawning listeners; `nB` = next id of class `B` -/
+def stepX (c : Cfg) (LB : List Listener) (s : State) (nB : Nat) : Op → (State × List XEntry × Out) × Nat
+  | .create kw => opCreateX c LB s nB kw
+  | op =>
+    let q := step c s op
+    let x := expandInline c LB c.listeners q.2.1 nB
+    ((q.1, x.1, q.2.2), x.2)
+
+def runX (c : Cfg) (LB : List Listener) : State → Nat → List Op → (State × Nat) × List XEntry
+  | s, nB, [] => ((s, nB), [])
+  | s, nB, op :: ops =>
+    let q := stepX c LB s nB op
+    let r := runX c LB q.1.1 q.2 ops
+    (r.1, q.1.2.1 ++ r.2)
 
 /-! ## Chain: an inheritance chain of any depth (level 0 = root) and nested constructors
 
